@@ -185,8 +185,7 @@ theorem write_desc_atomic (bw size : Nat) (w : Nat → Nat) (hat : nwords bw siz
   | zero =>
     intro st
     funext k
-    simp only [descList_succ, descList, List.range_zero, List.map_nil, List.foldl_cons, List.foldl_nil,
-      RegSt.write, hat, decide_true, Bool.and_self, if_true]
+    simp only [descList, RegSt.write, hat, decide_true, Bool.and_self, if_true]
     by_cases h : k = 0 <;> simp [h]
   | succ n ih =>
     intro st
